@@ -23,6 +23,7 @@ func runC12(c *Ctx) {
 	c12Writer(c)
 	c12Suffixed(c)
 	c12Helpers(c)
+	c18Flate(c)
 }
 
 func constBytes(v fold.Val) (string, bool) {
